@@ -1,6 +1,7 @@
 (* Lib/DagMergeSort.v -- merge-sorted order, merge depths and dotted revision
    numbers of a history (companion of Lib/Dag.v; shared by C22 and C25;
-   definitions only, the facts are in Theory/DagMergeSortFacts.v).
+   definitions only, the facts are in Theory/DagMergeSortFacts.v and
+   Theory/DagMergeSortMainline.v).
 
    The real numbering is vcsgraph.tsort.MergeSorter / KnownGraph.merge_sort
    (compiled Rust in site-packages, i.e. ENVIRONMENT for /repo): breezy's
